@@ -26,6 +26,9 @@ func Generate(r *rand.Rand, profile string) *Scenario {
 	if profile == "topo" {
 		return generateTopology(r)
 	}
+	if profile == "minrt" || profile == "elastic" {
+		return generateVictims(r, profile)
+	}
 	pick := func(vs ...int) int { return vs[r.Intn(len(vs))] }
 	chance := func(p float64) bool { return r.Float64() < p }
 	sc := &Scenario{Class: profile}
@@ -553,6 +556,109 @@ func generateTopology(r *rand.Rand) *Scenario {
 			}
 		} else if sc.Pods[len(sc.Pods)-size].Phase == "R" {
 			sc.Jobs[j].LastStart = 36000
+		}
+	}
+	sc.Normalize()
+	return sc
+}
+
+// generateVictims builds full clusters whose running work is made of eligible-looking victims:
+// profile minrt   - min-runtime settings on the department, the leaves or both (reclaim and preempt
+//                   values differ), victims started recently or long ago, elastic and gang victims;
+// profile elastic - elastic victims (min < running), some of their surplus pods already terminating
+//                   (stalled environment), pending claimants needing 1-3 GPUs.
+// One department, 2-3 sibling leaf queues: victims in an over-quota queue, claimants in an
+// under-quota sibling (reclaim) and/or with higher priority in the victims' queue (preempt).
+func generateVictims(r *rand.Rand, profile string) *Scenario {
+	pick := func(vs ...int) int { return vs[r.Intn(len(vs))] }
+	chance := func(p float64) bool { return r.Float64() < p }
+	sc := &Scenario{Class: profile}
+	sc.Cfg = Cfg{Placement: []string{"binpack", "spread"}[r.Intn(2)], Consolidation: pick(0, 1), Signatures: pick(0, 1),
+		ConsReclaim: pick(0, 1), SatMult: 1000, Cycles: pick(1, 2), Env: "closed", FullHier: 1}
+	if profile == "elastic" {
+		sc.Cfg.Env = "stall"
+		sc.Cfg.Cycles = pick(1, 2, 3)
+	}
+	nn := pick(1, 2, 2)
+	g := pick(2, 4)
+	for i := 0; i < nn; i++ {
+		sc.Nodes = append(sc.Nodes, Node{Name: fmt.Sprintf("n%d", i+1), Cpu: 32000, Mem: 64000, Pods: 110, Gpus: g, GpuMem: 40000, Ready: 1})
+	}
+	total := nn * g
+	dep := Queue{Name: "d1", Parent: 0, Prio: 100, GQ: -1, GL: -1, GW: 1, CQ: -1, CL: -1, MQ: -1, ML: -1}
+	qa := Queue{Name: "qa", Parent: 1, Prio: 100, GQ: pick(0, 1000), GL: -1, GW: 1, CQ: -1, CL: -1, MQ: -1, ML: -1}
+	qb := Queue{Name: "qb", Parent: 1, Prio: 100, GQ: pick(1000, 2000, 3000), GL: -1, GW: 1, CQ: -1, CL: -1, MQ: -1, ML: -1}
+	if profile == "minrt" {
+		// reclaim / preempt min-runtime on the department, on the victims' leaf, or both - never the same value twice
+		switch r.Intn(4) {
+		case 0:
+			dep.MinRtR = pick(3600, 36000)
+		case 1:
+			qa.MinRtR = pick(3600, 36000)
+		case 2:
+			dep.MinRtR, qa.MinRtR = 36000, 3600
+		case 3:
+			dep.MinRtP = pick(3600, 36000)
+		}
+		if chance(0.4) {
+			qa.MinRtP = pick(3600, 36000)
+		}
+		if chance(0.2) {
+			dep.MinRtP = pick(3600, 36000)
+		}
+	}
+	sc.Queues = []Queue{dep, qa, qb}
+	used := make([]int, nn)
+	k := 0
+	place := func() int {
+		for _, ni := range r.Perm(nn) {
+			if used[ni] < g {
+				used[ni]++
+				return ni + 1
+			}
+		}
+		return 0
+	}
+	// victims in qa until the cluster is full
+	for free := total; free > 0; {
+		size := pick(1, 2, 3)
+		if size > free {
+			size = free
+		}
+		min := size
+		if size > 1 && (profile == "elastic" || chance(0.5)) {
+			min = 1 + r.Intn(size-1)
+		}
+		k++
+		job := Job{Name: fmt.Sprintf("j%d", k), Queue: 2, Prio: pick(50, 50, 60), Preempt: 1, Min: min, Age: 7200 + 60*k,
+			LastStart: pick(60, 1800, 18000, 180000)}
+		sc.Jobs = append(sc.Jobs, job)
+		for i := 0; i < size; i++ {
+			p := Pod{Name: fmt.Sprintf("j%d-p%d", k, i+1), Job: k, Cpu: 500, Mem: 500, Gpu: 1, Phase: "R", Node: place()}
+			if profile == "elastic" && i >= min && chance(0.5) {
+				p.Term = 1
+			}
+			sc.Pods = append(sc.Pods, p)
+		}
+		free -= size
+	}
+	// claimants: reclaimers in qb, optionally a higher-priority preemptor in qa
+	nc := pick(1, 1, 2)
+	for c := 0; c < nc; c++ {
+		size := pick(1, 1, 2, 3)
+		k++
+		q := 3
+		prio := pick(50, 75)
+		if chance(0.3) {
+			q, prio = 2, 100
+		}
+		pre := pick(0, 1)
+		if prio >= 100 {
+			pre = 0
+		}
+		sc.Jobs = append(sc.Jobs, Job{Name: fmt.Sprintf("j%d", k), Queue: q, Prio: prio, Preempt: pre, Min: size, Age: 600 + 60*c, LastStart: -1})
+		for i := 0; i < size; i++ {
+			sc.Pods = append(sc.Pods, Pod{Name: fmt.Sprintf("j%d-p%d", k, i+1), Job: k, Cpu: 500, Mem: 500, Gpu: 1, Phase: "P"})
 		}
 	}
 	sc.Normalize()
